@@ -297,6 +297,7 @@ def stepLine (_ : Unit) (toks : List String) : Unit × Option Verdict :=
           tagIf (xmodel.errs.any (·.2.2)) "callback-error" ++
           tagIf (groups.contains ["ovl"]) "same-reader-overlap" ++
           tagIf (groups0.any fun g => g.head? == some "by") "bystander-reader-drops-kinds" ++
+          tagIf (groups0.any fun g => match g with | ["by", _, k] => k.startsWith "!" | _ => false) "bystander-reader-rejects-kinds" ++
           tagIf ((istr.splitOn ",").any fun tk => (tk.splitOn "@").length > 1) "several-meters" ++
           tagIf (xops.any fun o => match o with | .cancelAt j => j < is.length | _ => false) "cancel-during-aggregation" ++
           tagIf ((List.range is.length).any fun j => noSumInst is j && model.recs.any fun rc => rc.2.2.any fun st => st.inst == j) "nosum-histogram" ++
